@@ -213,6 +213,7 @@ func cmdCheck(args []string) int {
 	var viols []replayFile
 	var jobSummaries []map[string]interface{}
 	broken := false
+	var confDiv []string
 	for ji, j := range jobs {
 		shards := *procs
 		if j.Shards > 0 {
@@ -295,8 +296,7 @@ func cmdCheck(args []string) int {
 				viols = append(viols, replayFile{Property: id, Tier: *tier, Job: ji, JobName: j.Name, Violation: v})
 			}
 			for _, d := range r.Conformance {
-				fmt.Println("HARNESS-ERROR conformance: emulated and real-block replay disagree:", firstLines(d, 3))
-				broken = true
+				confDiv = append(confDiv, d)
 			}
 			db, _ := os.ReadFile(filepath.Join(tmp, fmt.Sprintf("j%d-s%d.json.dig", ji, s)))
 			for i := 0; i+8 <= len(db); i += 8 {
@@ -451,7 +451,14 @@ func cmdCheck(args []string) int {
 	for _, l := range lines {
 		fmt.Println(l)
 	}
-	if broken {
+	// a divergence between the emulated and the real-block replay is a harness error - unless the check reports a
+	// violation anyway (a tree whose block processing panics diverges for that very reason)
+	for i, d := range confDiv {
+		if i < 5 {
+			fmt.Println(map[bool]string{true: "note:", false: "HARNESS-ERROR"}[exit == 1], "conformance: emulated and real-block replay disagree:", firstLines(d, 3))
+		}
+	}
+	if broken || (len(confDiv) > 0 && exit != 1) {
 		return 2
 	}
 	return exit
